@@ -137,8 +137,60 @@ def data():
     return out
 
 
+def _module_text(p, names, imports, pub=True, aliases=None):
+    """source text of one module holding the functions `names` of program p"""
+    q = {k: (v if k not in ("funcs", "shadows", "globals") else []) for k, v in p.items()}
+    q["funcs"] = [f for f in p["funcs"] if f["n"] in names]
+    q["shadows"] = [sh for sh in p["shadows"] if sh["fn"] in names]
+    q["structs"] = []; q["enums"] = []; q["unions"] = []
+    text = pretty(q)
+    if pub:
+        text = text.replace("\nfn ", "\npub fn ")
+        if text.startswith("fn "):
+            text = "pub " + text
+    return "".join(imports) + "\n" + text
+
+
+def imports():
+    """multi-file programs (C01 lists multi-file imports): chain, diamond, selective import with alias.
+    Each entry is the *flattened* program (what NanoSem evaluates: imports make the public functions visible) carrying
+    the real file layout under "__files__"."""
+    out = {}
+    base = Func("base", [("x", "int")], "int", [Ret(Bin("+", V("x"), I(100)))])
+    mid = Func("mid", [("x", "int")], "int", [Println(V("x")), Ret(Bin("*", Call("base", V("x")), I(2)))])
+    left = Func("left", [("x", "int")], "int", [Ret(Bin("-", Call("base", V("x")), I(1)))])
+    right = Func("right", [("x", "int")], "int", [Ret(Bin("+", Call("base", V("x")), I(1)))])
+    greet = Func("greet", [("s", "string")], "string", [Ret(Bin("+", S("hello, "), V("s")))])
+    # chain: main -> b -> c
+    m = Func("main", [], "int", [Println(Call("mid", I(5))), Println(Call("mid", I(-100))), Ret(I(3))])
+    p = Program([base, mid, m])
+    p["__files__"] = {"p.nano": _module_text(p, ["main"], ['import "b.nano"\n'], pub=False), "b.nano": _module_text(p, ["mid"], ['import "c.nano"\n']),
+                      "c.nano": _module_text(p, ["base"], [])}
+    out["import_chain"] = p
+    # diamond: main -> l, r ; l -> c ; r -> c
+    m = Func("main", [], "int", [Println(Bin("+", Call("left", I(1)), Call("right", I(2)))), Ret(I(0))])
+    p = Program([base, left, right, m])
+    p["__files__"] = {"p.nano": _module_text(p, ["main"], ['import "l.nano"\n', 'import "r.nano"\n'], pub=False), "l.nano": _module_text(p, ["left"], ['import "c.nano"\n']),
+                      "r.nano": _module_text(p, ["right"], ['import "c.nano"\n']), "c.nano": _module_text(p, ["base"], [])}
+    out["import_diamond"] = p
+    # selective import with alias: the flattened program calls the alias names
+    times3 = Func("times3", [("x", "int")], "int", [Ret(Bin("*", V("x"), I(3)))])
+    m = Func("main", [], "int", [Println(Call("times3", I(14))), Println(Call("greet", S("world"))), Ret(I(0))])
+    p = Program([times3, greet, m])
+    lib = Program([Func("triple", [("x", "int")], "int", [Ret(Bin("*", V("x"), I(3)))]), greet])
+    p["__files__"] = {"p.nano": _module_text(p, ["main"], ['from "lib.nano" import triple as times3, greet\n'], pub=False), "lib.nano": _module_text(lib, ["triple", "greet"], [])}
+    out["import_selective_alias"] = p
+    # a module-level constant used through an imported function
+    k = Func("scaled", [("x", "int")], "int", [Ret(Bin("*", V("x"), V("FACTOR")))])
+    m = Func("main", [], "int", [Println(Call("scaled", I(6))), Ret(I(0))])
+    p = Program([k, m], globals_=[("FACTOR", "int", False, I(7))])
+    p["__files__"] = {"p.nano": _module_text(p, ["main"], ['import "k.nano"\n'], pub=False), "k.nano": "let FACTOR: int = 7\n" + _module_text(p, ["scaled"], [])}
+    out["import_module_constant"] = p
+    return out
+
+
 def all_families():
     out = {}
-    for f in (short_circuit, eval_order, scopes, loops, data):
+    for f in (short_circuit, eval_order, scopes, loops, data, imports):
         out.update(f())
     return out
